@@ -15,12 +15,14 @@ const GX_SECP: [u8; 32] = [
 
 /// every leading byte except the two compressed tags (symbolic) in front of a valid x-coordinate
 /// (concrete, so that curve arithmetic, where it is entered at all, constant-folds): rejected
-fn tag<C: Ciphersuite, S: Src>(s: &mut S, gx: &[u8; 32])
+fn tag<C: Ciphersuite, S: Src>(s: &mut S, gx: &[u8; 32], compact: bool)
 where
     <C::Group as Group>::Serialization: From<[u8; 33]>,
 {
-    let t: u8 = s.u8();
-    s.assume(t != 2 && t != 3);
+    // the SEC1 "compact" tag 0x05 is the only other tag with a 33-byte body: it enters point
+    // decompression, which is only tractable with a concrete tag; all remaining tags are symbolic
+    let t: u8 = if compact { 5 } else { s.u8() };
+    s.assume(t != 2 && t != 3 && (compact || t != 5));
     let mut b = [0u8; 33];
     b[0] = t;
     let mut i = 0;
@@ -32,13 +34,22 @@ where
     assert!(r.is_err(), "only the compressed SEC1 tags 0x02/0x03 denote a group element (any other leading byte cannot re-encode to itself)");
 }
 pub fn k4_p256_tag<S: Src>(s: &mut S) {
-    tag::<frost_p256::P256Sha256, S>(s, &GX_P256)
+    tag::<frost_p256::P256Sha256, S>(s, &GX_P256, false)
 }
 pub fn k4_secp256k1_tag<S: Src>(s: &mut S) {
-    tag::<frost_secp256k1::Secp256K1Sha256, S>(s, &GX_SECP)
+    tag::<frost_secp256k1::Secp256K1Sha256, S>(s, &GX_SECP, false)
 }
 pub fn k4_secp256k1_tr_tag<S: Src>(s: &mut S) {
-    tag::<frost_secp256k1_tr::Secp256K1Sha256TR, S>(s, &GX_SECP)
+    tag::<frost_secp256k1_tr::Secp256K1Sha256TR, S>(s, &GX_SECP, false)
+}
+pub fn k4_p256_tag05<S: Src>(s: &mut S) {
+    tag::<frost_p256::P256Sha256, S>(s, &GX_P256, true)
+}
+pub fn k4_secp256k1_tag05<S: Src>(s: &mut S) {
+    tag::<frost_secp256k1::Secp256K1Sha256, S>(s, &GX_SECP, true)
+}
+pub fn k4_secp256k1_tr_tag05<S: Src>(s: &mut S) {
+    tag::<frost_secp256k1_tr::Secp256K1Sha256TR, S>(s, &GX_SECP, true)
 }
 /// Taproot signature framing: every length 0..=80 other than 64 is rejected, no panic
 pub fn k4_tr_signature_length<S: Src>(s: &mut S) {
